@@ -22,14 +22,17 @@ Local Open Scope string_scope.
 (* ------------------------------------------------------------------ exception classes *)
 (* what open / read / write / makedirs can raise on the per-user files *)
 Inductive ioerr := EOSError | EFileNotFound | EIsADirectory | ENotADirectory | EPermission
-                 | EFileExists | EUnicodeEncode.
+                 | EFileExists.
 Definition ioerr_name (e : ioerr) : pyexn :=
   match e with
   | EOSError => "OSError" | EFileNotFound => "FileNotFoundError"
   | EIsADirectory => "IsADirectoryError" | ENotADirectory => "NotADirectoryError"
   | EPermission => "PermissionError" | EFileExists => "FileExistsError"
-  | EUnicodeEncode => "UnicodeEncodeError"
   end.
+(* writing the history lines can also fail to encode them *)
+Inductive wexn := WIo (e : ioerr) | WUnicodeEncode.
+Definition wexn_name (e : wexn) : pyexn :=
+  match e with WIo e => ioerr_name e | WUnicodeEncode => "UnicodeEncodeError" end.
 
 (* hand-written: the proper ancestors (below BaseException) of the Python classes involved *)
 Definition ancestors : list (string * list string) := [
@@ -299,12 +302,14 @@ Record write_env := {
   we_parent_exists : bool;
   we_makedirs : option ioerr;
   we_open : option ioerr;
-  we_write : option ioerr
+  we_write : option wexn
 }.
 Inductive written := WNothing | WAppended (text : string) | WCreated (text : string).
 
 Definition os_step (r : option ioerr) : pres unit :=
   match r with Some e => PRaise (ioerr_name e) | None => POk tt end.
+Definition write_step (r : option wexn) : pres unit :=
+  match r with Some e => PRaise (wexn_name e) | None => POk tt end.
 Definition open_for_write (s : fstate) (w : write_env) : pres unit :=
   match s with
   | Directory => PRaise "IsADirectoryError"
@@ -320,12 +325,12 @@ Definition save_history (c : config) (fs : filesys) (w : write_env) (history : l
      if history_enabled c then
        if path_exists s then
          pbind (open_for_write s w) (fun _ =>
-         pbind (os_step (we_write w)) (fun _ =>
+         pbind (write_step (we_write w)) (fun _ =>
          POk (WAppended (String ch_nl EmptyString ++ String.concat (String ch_nl EmptyString) history), [])))
        else
          pbind (if we_parent_exists w then POk tt else os_step (we_makedirs w)) (fun _ =>
          pbind (open_for_write s w) (fun _ =>
-         pbind (os_step (we_write w)) (fun _ =>
+         pbind (write_step (we_write w)) (fun _ =>
          POk (WCreated (String.concat (String ch_nl EmptyString) history), []))))
      else POk (WNothing, []))
     (fun _ => POk (WNothing, [WHistorySave])).
@@ -336,6 +341,33 @@ Definition interpreter_session (c : config) (fs : filesys) (w : write_env) (hist
   : pres (Z * list warning) :=
   pbind (readline_load_history c fs) (fun w1 =>
   pbind (save_history c fs w history) (fun r => POk (0%Z, (w1 ++ snd r)%list))).
+
+(* ------------------------------------------------------------------ facts about the regenerated tables
+   (stated here, proved by computation in GenFacts/ConfigFacts.v on every run) *)
+(* every exception the modelled bodies can raise is caught by the handler around them *)
+Definition handlers_catch : Prop :=
+  (forall e, caught_by "config.read_config" (ioerr_name e) = true) /\
+  caught_by "config.read_config" "UnicodeDecodeError" = true /\
+  (forall e, caught_by "currency.load_currency_data" (ioerr_name e) = true) /\
+  caught_by "currency.load_currency_data" "UnicodeDecodeError" = true /\
+  caught_by "currency.load_currency_data" "ValueError" = true /\
+  (forall e, caught_by "interpret.load_history" (ioerr_name e) = true) /\
+  caught_by "interpret.load_history" "UnicodeDecodeError" = true /\
+  (forall e, caught_by "interpret.save_history" (wexn_name e) = true).
+(* the built-in table is usable: positive rates, not empty *)
+Definition builtin_table_ok : Prop := rates_positiveb currency_data = true /\ currency_data <> [].
+(* the option kinds the model relies on *)
+Definition is_textual (name : string) : bool :=
+  match prop_of name with Some p => negb (cp_num p) && negb (cp_bool p) | None => false end.
+Definition props_okb : bool :=
+  match prop_of "precision" with
+  | Some p => cp_num p && negb (cp_bool p)
+              && match default_of p with VInt z => (0 <=? z)%Z && (z <? max_num)%Z | _ => false end
+  | None => false
+  end
+  && match prop_of "save-history" with Some p => negb (cp_num p) && cp_bool p | None => false end
+  && is_textual "currency-path" && is_textual "history-path" && is_textual "base-currency"
+  && is_textual "prompt".
 
 (* ------------------------------------------------------------------ rendering for the kernel lane *)
 Definition show_cval (v : cval) : string :=
